@@ -332,7 +332,8 @@ class EquationSolver(object):
         else:
             err_toler = self.ParameterErrorTolerance
         num_tries = 0
-        trace_keys = list(initial.keys())
+        # Registered functions live in the same dictionary as the variables; they are not traced.
+        trace_keys = [x for x in initial.keys() if x not in self.Functions]
         trace_keys.sort()
         # Logger('\t'.join(['Iteration', 'PreviousError'] + trace_keys), log='step')
         # The following two assignments not really necessary, but the code inspection
